@@ -2,6 +2,13 @@ package main
 
 import "strings"
 
+// extraHooks: each subsystem appends its fact writer from an init() in its own file
+// (extra_<sub>.go), so that this file need not be edited again.  Hooks run in file-name order.
+var extraHooks []func(b *strings.Builder)
+
 // extraFacts is the extension point for structured facts (verb lists, loop facts, regexp texts).
 func extraFacts(b *strings.Builder) {
+	for _, h := range extraHooks {
+		h(b)
+	}
 }
